@@ -1,4 +1,4 @@
-import DimodProofs.Equality
+import DimodProofs.EqualityViews
 
 /-! # C18 — model equality is total, symmetric and sensitive to every coefficient
 
@@ -136,6 +136,78 @@ theorem isEqual_imp_almostEqual (p : Nat) (a b : QModel) (ha : WF a) (hb : WF b)
   · intro u v x y hx hy
     rw [hc.quad u v, hy] at hx
     cases hx; simpa using zero
+
+/-! ## the mapping views `m.linear`, `m.adj`, `m.adj[v]`, `m.quadratic`
+
+`Eqm.viewEq k a b` is `a.<k> == b.<k>` as `dimod/views/quadratic.py` computes it (`Mapping.__eq__` = equality of
+`dict(items())` for `Linear`, `Adjacency`, `Neighborhood`; `Quadratic.__eq__` = same size and every item of the other found
+here, in either orientation, with an equal bias); `viewNe` is the inherited `!=`.  A plain dict with the same items on either
+side goes through the same method.  `ViewCanon k a b` is what that equality means on canonical forms. -/
+
+/-- **Mapping equality is equality of the canonical content**: `linear` — the same variables with the same linear biases;
+    `adj` — the same variables and the same interactions with the same biases; `adj[v]` — the same neighbours of `v` with the
+    same biases; `quadratic` — the same interactions with the same biases (an interaction stored with bias 0 is an
+    interaction) — whatever the classes, variable orders, term orders and orientations. -/
+theorem viewEq_iff_canon (k : VKind) (a b : QModel) (ha : WF a) (hb : WF b) : viewEq k a b = true ↔ ViewCanon k a b :=
+  viewEq_iff k ha hb
+
+/-- spelled out for `quadratic`, whose `__eq__` is hand-written and asymmetric in form (it walks the *other* mapping and
+    looks every key up in `self`): a lookup that defaulted to 0 for a missing key, or that compared sizes only, would not
+    satisfy this -/
+theorem quadratic_eq_iff (a b : QModel) (ha : WF a) (hb : WF b) :
+    viewEq .quadratic a b = true ↔ ∀ u v, QModel.quadLookup a.quad u v = QModel.quadLookup b.quad u v :=
+  quadraticEq_iff ha hb
+
+/-- symmetric, and `!=` is its negation -/
+theorem viewEq_symmetric (k : VKind) (a b : QModel) (ha : WF a) (hb : WF b) :
+    viewEq k a b = viewEq k b a ∧ viewNe k a b = !(viewEq k a b) :=
+  ⟨viewEq_symm k ha hb, rfl⟩
+
+/-- `is_equal` between two models is exactly: types agree, offsets agree, `a.linear == b.linear` and `a.adj == b.adj` —
+    the mapping equalities the code uses; and equal `adj` implies equal `quadratic` and equal neighbourhoods -/
+theorem isEqual_is_view_equality (a b : QModel) (ha : WF a) (hb : WF b) :
+    (isEqual (.model a) (.model b) = .ok true
+      ↔ (∀ v ∈ a.vars, a.vartypeOf v = b.vartypeOf v) ∧ a.off = b.off ∧ viewEq .linear a b = true ∧ viewEq .adj a b = true)
+    ∧ (viewEq .adj a b = true → viewEq .quadratic a b = true ∧ ∀ v, viewEq (.nbh v) a b = true) := by
+  refine ⟨isEqual_iff_views a b ha hb, ?_⟩
+  intro h
+  have hc := (viewEq_iff .adj ha hb).mp h
+  exact ⟨(viewEq_iff .quadratic ha hb).mpr hc.2, fun v => (viewEq_iff (.nbh v) ha hb).mpr (fun w => hc.2 v w)⟩
+
+/-! ## numbers as operands of `==` / `!=`
+
+`bqm == 3` / `qm == 3` build the comparison `Eq(model, 3)`, and so does `3 == model` (the number answers `NotImplemented`,
+Python calls the model's reflected `__eq__`); its truth value is `model.is_equal(3)`.  `!=` is `not is_equal` for a BQM and
+Python's default inversion for a QM.  Views and CQMs define neither operator. -/
+
+/-- a BQM or QM against a number, **on either side**: true exactly when the model has no variables and its offset is that
+    number; `!=` is the negation -/
+theorem number_operand (same : Bool) (a : QModel) (x : Rat) (hk : a.kind ≠ .view) :
+    opEq same (.model a) (.num x) = .ok (a.vars.isEmpty && decide (a.off = x))
+    ∧ opEq same (.num x) (.model a) = .ok (a.vars.isEmpty && decide (a.off = x))
+    ∧ opNe same (.model a) (.num x) = .ok (!(a.vars.isEmpty && decide (a.off = x)))
+    ∧ opNe same (.num x) (.model a) = .ok (!(a.vars.isEmpty && decide (a.off = x))) :=
+  opEq_num same a x hk
+
+/-- an expression view or a CQM against a number: identity (`False` for `==`, `True` for `!=`), on either side -/
+theorem number_operand_identity (same : Bool) (a : QModel) (c : CqmVal) (x : Rat) (hk : a.kind = .view) :
+    opEq same (.model a) (.num x) = .ok same ∧ opEq same (.num x) (.model a) = .ok same
+    ∧ opEq same (.cqm c) (.num x) = .ok same ∧ opEq same (.num x) (.cqm c) = .ok same
+    ∧ opNe same (.model a) (.num x) = .ok (!same) ∧ opNe same (.num x) (.cqm c) = .ok (!same) :=
+  opEq_num_identity same a c x hk
+
+/-- a `Quadratic` view does not equal one with the same number of interactions on other pairs, nor one that lacks a
+    zero-bias interaction the other has -/
+example : viewEq .quadratic
+    { kind := .qm, vars := [.str "a", .str "b", .str "c"], lin := [0, 0, 0], quad := [(.str "a", .str "b", 1)], off := 0, types := [] }
+    { kind := .qm, vars := [.str "a", .str "b", .str "c"], lin := [0, 0, 0], quad := [(.str "c", .str "b", 1)], off := 0, types := [] } = false
+  ∧ viewEq .quadratic
+    { kind := .qm, vars := [.str "a", .str "b"], lin := [0, 0], quad := [(.str "a", .str "b", 0)], off := 0, types := [] }
+    { kind := .qm, vars := [.str "a", .str "b"], lin := [0, 0], quad := [], off := 0, types := [] } = false
+  ∧ viewEq .quadratic
+    { kind := .qm, vars := [.str "a", .str "b"], lin := [0, 0], quad := [(.str "a", .str "b", 2)], off := 0, types := [] }
+    { kind := .bqm .spin, vars := [.str "b", .str "a"], lin := [5, 5], quad := [(.str "b", .str "a", 2)], off := 1, types := [] } = true := by
+  decide +kernel
 
 /-! ## the defects the model was built against (non-vacuity of the flags) -/
 
